@@ -571,6 +571,10 @@ def load(
     # convert
     bdd = _bdd.BDD(new_levels)
     umap = {-1: -1, 1: 1}
+    # the terminal node can have any number in the file
+    for u, (_, v, _) in bdd_succ.items():
+        if v is None:
+            umap[abs(u)] = 1
     for j in range(len(new_levels) - 1, -1, -1):
         for u, (k, v, w) in bdd_succ.items():
             # terminal ?
